@@ -31,6 +31,8 @@ Section Laws.
     l_adj_add : forall a b, eqv (vadj O (vadd O a b)) (vadd O (vadj O a) (vadj O b));
     l_adj_mul : forall a b, eqv (vadj O (vmul O a b)) (vmul O (vadj O b) (vadj O a));
     l_adj_adj : forall a, eqv (vadj O (vadj O a)) a;
+    l_adj_neg : forall a, eqv (vadj O (vneg O a)) (vneg O (vadj O a));
+    l_adj_div : forall a k, eqv (vadj O (vdiv O a k)) (vdiv O (vadj O a) k);
     l_div_0 : forall k, eqv (vdiv O (v0 O) k) (v0 O);
     l_is0 : forall a, vis0 O a = true -> eqv a (v0 O)
   }.
